@@ -13,3 +13,11 @@ chk("C01", TV,
     "values (unsat = no input within 64-bit values breaks it). Bounded in tree depth, not in values.",
     BASE_NOTE, "SMT translation validation of emitted eBPF (z3 BV, UF abstraction with proved lemmas, cvc5 bv-as-int fallback)",
     "A:8/C01")
+
+chk("C03", TV,
+    "Condition trees (6 comparison operators x operand kinds, mask tests, single/multi-bit fields, ~ & | nesting, "
+    "with/Else nested and sequenced) are compiled by the real generator with marker assignments in every branch; "
+    "for ALL operand values each marker is set iff the reference truth of its path condition holds, no other "
+    "variable changes and the end of the construct is always reached. Bounded in tree depth/nesting, not in values.",
+    BASE_NOTE, "SMT translation validation of emitted eBPF control flow (z3 BV, merged symbolic execution)",
+    "A:8/C03")
